@@ -69,7 +69,7 @@ def random_dnf_cases(seed, natoms, n_single, n_pairs, dmin, dmax):
             g = [NOT, NOT] + f
         else:
             g = random_formula(rng, natoms, rng.randint(1, dmax - 1))
-        out.append("Q " + formula_tokens(f) + " ; " + formula_tokens(g))
+        out.append("q " + formula_tokens(f) + " ; " + formula_tokens(g))
     return out
 
 
